@@ -89,7 +89,14 @@ class DropDomain(TaintDomain):
         if not hasattr(owner, "_ld_made"):
             owner._ld_made = {}
         owner._ld_made[label] = (node, name)
-        return TUP([res.data[0], AV("tensor", None, frozenset({label}))])
+        # the outputs of the same call carry a twin label: a log-det may be dropped when the
+        # outputs it belongs to do not reach the returned outputs either (they are only fed to
+        # a conditioner network, whose results carry no labels, and recomputed by a later call
+        # whose log-det is kept -- the passes of an autoregressive inverse)
+        out0 = res.data[0]
+        if out0.kind in ("tensor", "top"):
+            out0 = AV(out0.kind, out0.data, frozenset(set(out0.ann or ()) | {("OUT",) + label[1:]}))
+        return TUP([out0, AV("tensor", None, frozenset({label}))])
 
     def on_return(self, interp, frame, value, node):
         made = getattr(frame, "_ld_made", None)
@@ -98,8 +105,10 @@ class DropDomain(TaintDomain):
         fi = frame.func
         if value is None:
             return
+        outs = set()
         if value.kind == "tuple" and len(value.data) == 2:
             got = set(all_ann(self, value.data[1]))
+            outs = set(all_ann(self, value.data[0]))
             density = True
         elif fi.name in ("_log_prob", "log_prob"):
             got = set(all_ann(self, value))
@@ -114,6 +123,8 @@ class DropDomain(TaintDomain):
         for label, (cnode, name) in made.items():
             if label in got:
                 self.kept.append((fi, cnode, name, "flows into the returned log-det"))
+            elif value.kind == "tuple" and ("OUT",) + label[1:] not in outs and outs:
+                self.kept.append((fi, cnode, name, "is dropped together with the outputs of that call (they only condition a later call)"))
             else:
                 self.dropped.append((fi, cnode, name, node))
 
@@ -1168,6 +1179,110 @@ def orth_rule(ctx):
     return res
 
 
+# ---------------------------------------------------------------------------------------
+# LD-STATE (C01 / C02 / C03): no stale copy of stored state
+# ---------------------------------------------------------------------------------------
+
+
+def _roots_of(expr, fnode, depth=0):
+    """constructor-local names an expression is computed from, through simple local assignments
+    (`scale = torch.as_tensor(scale)` keeps the root `scale`)"""
+    out = set()
+    if expr is None:
+        return out
+    for n in ast.walk(expr):
+        if isinstance(n, ast.Name) and n.id not in ("torch", "np", "nn", "F", "math", "self", "init", "check", "torchutils"):
+            out.add(n.id)
+    if depth < 4:
+        more = set()
+        for st in ast.walk(fnode):
+            if isinstance(st, ast.Assign) and len(st.targets) == 1 and isinstance(st.targets[0], ast.Name) and st.targets[0].id in out:
+                more |= _roots_of(st.value, fnode, depth + 1) if depth < 3 else set()
+        out |= more
+    return out
+
+
+def _stores_value(expr):
+    """the constructor-local name whose value `expr` stores unchanged (up to tensor wrappers)"""
+    e = expr
+    for _ in range(6):
+        if isinstance(e, ast.Name):
+            return e.id
+        if isinstance(e, ast.Call):
+            last = _last(e)
+            if last in ("Parameter", "as_tensor", "tensor", "from_numpy", "clone", "detach", "float", "double", "to", "contiguous", "Tensor", "long"):
+                if isinstance(e.func, ast.Attribute) and not (isinstance(e.func.value, ast.Name) and e.func.value.id in ("torch", "nn", "np")) and not e.args:
+                    e = e.func.value
+                    continue
+                if e.args:
+                    e = e.args[0]
+                    continue
+        return None
+    return None
+
+
+def ld_state_rule(ctx):
+    """A tensor attribute computed once in the constructor from a value that is also stored as
+    a parameter or persistent buffer is a second copy of restorable state: load_state_dict, an
+    optimiser step or an in-place update changes the stored one and not the copy, and whatever
+    reads the copy (typically the log-det) no longer belongs to the map the stored one defines."""
+    p = ctx.p
+    res = RuleResult("LD-STATE", "no evaluation path reads a constructor-time copy (non-persistent buffer / plain tensor attribute) of a quantity that is also stored as a parameter or persistent buffer")
+    n_cls = 0
+    for cls in p.all_classes():
+        if not cls.is_nn_module():
+            continue
+        attrs = p.attrs(cls)
+        stored = {}  # root name -> attribute that stores it persistently
+        for name, ai in attrs.items():
+            if ai.cls is not cls or ai.func is None or ai.value is None:
+                continue
+            if ai.kind == "PARAM" or (ai.kind == "BUFFER" and ai.extra is True):
+                root = _stores_value(ai.value)
+                if root is not None:
+                    stored.setdefault(root, name)
+                    # through local aliases: scale = torch.as_tensor(scale)
+                    for r in _roots_of(ast.Name(id=root, ctx=ast.Load()), ai.func.node):
+                        stored.setdefault(r, name)
+        if not stored:
+            continue
+        n_cls += 1
+        for name, ai in attrs.items():
+            if ai.cls is not cls or ai.func is None or ai.value is None:
+                continue
+            is_copy_kind = (ai.kind == "BUFFER" and ai.extra is False) or (ai.kind == "PLAIN" and isinstance(ai.value, ast.Call) and (norm_text(ai.value.func).startswith("torch.") or _last(ai.value) in ("log", "exp", "abs", "argsort", "inverse", "reciprocal", "sqrt")))
+            if not is_copy_kind:
+                continue
+            if _stores_value(ai.value) is not None and ai.kind == "PLAIN":
+                continue  # a plain alias of an argument (configuration), not a derived tensor
+            roots = _roots_of(ai.value, ai.func.node)
+            via_self = {n.attr for n in ast.walk(ai.value) if isinstance(n, ast.Attribute) and isinstance(n.value, ast.Name) and n.value.id == "self"}
+            src = [stored[r] for r in roots if r in stored] + [a for a in via_self if a in attrs and (attrs[a].kind == "PARAM" or (attrs[a].kind == "BUFFER" and attrs[a].extra is True))]
+            src = [a for a in src if a != name]
+            if not src:
+                continue
+            # read outside the constructor?
+            readers = []
+            for mname, m in cls.methods.items():
+                if mname == "__init__" or m is ai.func:
+                    continue
+                for n in ast.walk(m.node):
+                    if isinstance(n, ast.Attribute) and n.attr == name and isinstance(n.value, ast.Name) and n.value.id == "self" and isinstance(n.ctx, ast.Load):
+                        readers.append(m.qualname)
+                        break
+            # refreshed wherever the source may change? (a write to the copy outside the constructor)
+            refreshed = any(isinstance(n, (ast.Assign, ast.AugAssign)) and any(isinstance(t, ast.Attribute) and t.attr == name for t in (n.targets if isinstance(n, ast.Assign) else [n.target])) for mname, m in cls.methods.items() if mname != "__init__" and m is not ai.func for n in ast.walk(m.node))
+            refreshed = refreshed or any(isinstance(n, ast.Call) and isinstance(n.func, ast.Attribute) and n.func.attr in ("copy_", "fill_") and isinstance(n.func.value, ast.Attribute) and n.func.value.attr == name for mname, m in cls.methods.items() if mname != "__init__" for n in ast.walk(m.node))
+            if readers and not refreshed:
+                res.fail(Finding("LD-STATE", cls.module, "%s.__init__" % cls.name, ai.node, "`%s` is computed once in the constructor from the quantity stored in `%s` (%s) and is not part of the state dict: after load_state_dict / a parameter update `%s` changes and `%s` does not, yet %s reads it" % (name, src[0], "parameter" if attrs[src[0]].kind == "PARAM" else "persistent buffer", src[0], name, ", ".join(sorted(set(readers))[:3])), construct="constructor-time copy %s of %s.%s" % (name, cls.name, src[0])))
+            else:
+                res.ok("%s.%s: derived from %s, %s" % (cls.name, name, src[0], "refreshed outside the constructor" if refreshed else "never read"), nontrivial=False)
+        res.ok("%s: stored quantities %s have no stale constructor-time copy" % (cls.name, sorted(set(stored.values()))[:4]))
+    if n_cls < 5:
+        raise AnalysisIncomplete("LD-STATE: %d module classes with stored constructor values (< 5 confirmed by hand)" % n_cls)
+    return res
+
+
 def ld_elem_rule(ctx):
     """The scalar nonlinearities sum an elementwise log-derivative: their map must be elementwise."""
     from .c07 import elementwise_rule, SCALAR_TABLE
@@ -1177,8 +1292,11 @@ def ld_elem_rule(ctx):
 
 register(
     "C01",
-    [nodrop_rule, ld_shape_rule, ld_mult_rule, ld_elem_rule],
-    "LD-NODROP: abstract interpretation of every transform / distribution / spline entry point in which the second component "
+    [nodrop_rule, ld_shape_rule, ld_mult_rule, ld_elem_rule, ld_state_rule],
+    "LD-STATE: in every nn.Module class, a non-persistent buffer or plain tensor attribute whose constructor expression is "
+    "computed from a constructor value that the same constructor stores as a parameter or persistent buffer (through local "
+    "aliases and tensor wrappers) is a second copy of restorable state; if any method reads it and no method refreshes it, the "
+    "log-det (or whatever reads it) stops describing the stored map after load_state_dict / an optimiser step. LD-NODROP: abstract interpretation of every transform / distribution / spline entry point in which the second component "
     "of every pair-returning transform, hook or spline call is relabelled with its call site; at every return of a "
     "pair-returning function (and of log_prob) the label of every such call made in that activation must be present in the "
     "returned log-det, unless the callee's log-det is built from zeros only (computed, not listed) or the caller returns no "
@@ -1244,7 +1362,7 @@ def inv_state_rule(ctx):
 
 register(
     "C02",
-    [inv_sign_rule, inv_config_rule, inv_pos_rule, inv_state_rule],
+    [inv_sign_rule, inv_config_rule, inv_pos_rule, inv_state_rule, ld_state_rule],
     "INV-SIGN / INV-FLAG: for every direction pair (forward/inverse, the coupling / autoregressive / no-cache hooks, and every "
     "function with an inverse flag incl. the four spline functions) the returned log-dets are expanded symbolically and "
     "flattened to signed leaves through reductions, broadcasts, reshapes and masked stores; the inverse's leaves must be the "
